@@ -3,7 +3,7 @@
    key_tab / key_rows (Gen/C07_Schemas.v) are reflected / tabulated from the real line classes on every
    run.  [fields_ok tab sch vs] = "every field value its format version allows": each value survives its
    own codec (field_rt, proved per codec below) and its text fits the character class of the pattern. *)
-From PV Require Import Lib.Base Lib.Round Model.C07 Gen.C07_Schemas Proofs.C07_lib Proofs.C07 Proofs.C07_codec Proofs.C07_hist.
+From PV Require Import Lib.Base Lib.Round Model.C07 Model.C07_Disp Model.C07_Up Gen.C07_Schemas Gen.C07_Parsers Proofs.C07_lib Proofs.C07 Proofs.C07_codec Proofs.C07_hist Proofs.C07_disp Proofs.C07_disp2 Proofs.C07_up.
 From Coq Require Import QArith Qabs Ascii.
 #[local] Open Scope string_scope.
 #[local] Open Scope Z_scope.
@@ -283,3 +283,220 @@ Theorem to_v1_trill_anchor : forall anchor no out,
   exists no', note_to_v1 no = Some no' /\ out = anchor :: VList ["trill"] :: no'.
 Proof. exact to_v1_trill. Qed.
 Print Assumptions to_v1_trill_anchor.
+
+(* ---------------------------------------------------------------- line dispatch and version detection (Model/C07_Disp.v, Proofs/C07_disp.v) *)
+
+(* the backtracking matcher [bt] (greedy groups, as re.match) finds only decompositions of the text ... *)
+Theorem regex_match_sound : forall pat s gs rest, bt pat s = Some (gs, rest) -> rmatch pat s gs rest.
+Proof. exact bt_sound_lemma. Qed.
+Print Assumptions regex_match_sound.
+
+(* ... finds one whenever there is one ... *)
+Theorem regex_match_complete : forall pat s gs rest, rmatch pat s gs rest -> bt pat s <> None.
+Proof. exact bt_complete_lemma. Qed.
+Print Assumptions regex_match_complete.
+
+(* ... and gives the first group the longest text with which the rest of the pattern still matches *)
+Theorem regex_group_greedy : forall cl m r s g gs rest,
+  bt (RGrp cl m :: r) s = Some (g :: gs, rest) ->
+  forall g' s', s = g' ++ s' -> all_chars (rc_in cl) g' = true ->
+                (String.length g < String.length g')%nat -> bt r s' = None.
+Proof. exact bt_greedy_lemma. Qed.
+Print Assumptions regex_group_greedy.
+
+(* re.search: the match at the leftmost position that has one *)
+Theorem regex_search_leftmost : forall pat s j gs rest,
+  re_search pat s = Some (j, gs, rest) ->
+  exists pre mid, s = pre ++ mid /\ j = String.length pre /\ bt pat mid = Some (gs, rest) /\
+    (forall pre' mid', s = pre' ++ mid' -> (String.length pre' < String.length pre)%nat -> bt pat mid' = None).
+Proof.
+  intros pat s j gs rest H. unfold re_search in H. apply search_from_some in H as (pre & mid & H1 & H2 & H3 & H4).
+  exists pre, mid. auto.
+Qed.
+Print Assumptions regex_search_leftmost.
+
+(* importmatch.parse_matchline: the first method of the ordered list that reads the line; all before it fail *)
+Theorem dispatch_first : forall tab ps s j gs vs,
+  dispatch tab ps s = Some (j, gs, vs) ->
+  exists p, nth_error ps j = Some p /\ run_parser tab p s = Some (gs, vs) /\
+            (forall k' p', (k' < j)%nat -> nth_error ps k' = Some p' -> run_parser tab p' s = None).
+Proof. exact dispatch_first_lemma. Qed.
+Print Assumptions dispatch_first.
+
+(* for EVERY text: a method that reads the line found every literal of its patterns in it, and the line
+   starts with the literal of a pattern it matches at the start (the identifier of an insertion) *)
+Theorem parser_needs_literals : forall tab p s r,
+  run_parser tab p s = Some r ->
+  (forall st l, In st (lp_steps p) -> In l (step_lits st) -> occurs l s) /\
+  (forall h q, In (PMatch (RLit h :: q)) (lp_steps p) -> starts_with h s).
+Proof. exact parser_needs_literals_lemma. Qed.
+Print Assumptions parser_needs_literals.
+
+(* for EVERY text and every format version: no line is read by two different methods of the insertion
+   family (insertion / hammer bounce / trailing played note: the identifier starts the line) nor by two of the
+   deletion family (deletion / trailing score note / no played note: the identifier follows the score note);
+   so no identifier inside the line and no order of these methods can change the kind within a family.
+   The parser lists are the ones reflected from FROM_MATCHLINE_METHODS on this run. *)
+Theorem reflected_families_exclusive : forall v ps p1 p2 s,
+  In (v, ps) parser_table -> In p1 ps -> In p2 ps -> lp_name p1 <> lp_name p2 ->
+  (head_of p1 <> None /\ head_of p2 <> None) \/ (tail_of p1 <> None /\ tail_of p2 <> None) ->
+  run_parser key_tab p1 s <> None -> run_parser key_tab p2 s = None.
+Proof. exact reflected_families_exclusive_lemma. Qed.
+Print Assumptions reflected_families_exclusive.
+
+(* the families are not empty: the identifiers as reflected (0.5.0 and 1.0.0) *)
+Theorem reflected_family_markers :
+  forallb (has_head parsers_v0_5_0) ["insertion-"; "hammer_bounce-"; "trailing_played_note-"] = true /\
+  forallb (has_tail parsers_v0_5_0) ["-deletion."; "-trailing_score_note."; "-no_played_note."] = true /\
+  has_head parsers_v1_0_0 "insertion-" = true /\ has_tail parsers_v1_0_0 "-deletion." = true.
+Proof. exact family_markers_example. Qed.
+Print Assumptions reflected_family_markers.
+
+(* computed instances: identifiers holding the identifier of another kind (the lines that were read as the wrong
+   kind before the repair 855e606), a 1.0.0 file has no info(keySignature,..) line *)
+Theorem dispatch_marker_examples :
+  disp_kind parsers_v0_5_0 "trill(insertion-1)-note(1,[C,n],4,1,2,5,3)." = Some "MatchTrillNote" /\
+  disp_kind parsers_v0_5_0 "snote(x-deletion.,[C,n],4,1:1,0,1/4,0.0,1.0,[v1])-trailing_score_note." = Some "MatchSnoteTrailingScore" /\
+  disp_kind parsers_v0_5_0 "trailing_played_note-note(hammer_bounce-2,[C,n],4,1,2,5,3)." = Some "MatchTrailingPlayedNote" /\
+  disp_kind parsers_v0_1_0 "hammer_bounce-note(insertion-1,[c,n],4,1.00,2.00,3)." = Some "MatchHammerBounceNote" /\
+  disp_kind parsers_v1_0_0 "ornament(insertion-1,[trill])-note(n1,60,1,2,3,1,0)." = Some "MatchOrnamentNote" /\
+  disp_kind parsers_v1_0_0 "snote(n1,[C,n],4,1:1,0,1/4,0.0000,1.0000,[v1])-note(n1,60,1,2,3,1,0)." = Some "MatchSnoteNote" /\
+  disp_kind parsers_v1_0_0 "snote(n1,[C,n],4,1:1,0,1/4,0.0000,1.0000,[v1])-deletion." = Some "MatchSnoteDeletion" /\
+  disp_kind parsers_v1_0_0 "scoreprop(keySignature,E/C#m,1:1,0,0.0000)." = Some "MatchScoreProp" /\
+  disp_kind parsers_v1_0_0 "info(keySignature,E)." = None.
+Proof. exact dispatch_examples. Qed.
+Print Assumptions dispatch_marker_examples.
+
+(* interpret_version: "major.minor.patch" for all numbers, whatever follows that is no digit ... *)
+Theorem interpret_version_canonical : forall a b c t,
+  0 <= a -> 0 <= b -> 0 <= c -> nondigit_start t ->
+  interpret_version version_pat old_version_pat
+    (print_N a ++ "." ++ print_N b ++ "." ++ print_N c ++ t) = Some (a, b, c).
+Proof. exact interpret_version_canonical_lemma. Qed.
+Print Assumptions interpret_version_canonical.
+
+(* ... and the spelling of the versions before 1.0.0, "minor.patch" = 0.minor.patch *)
+Theorem interpret_version_old_form : forall b c t,
+  0 <= b -> 0 <= c -> nondigit_start t -> count_char "."%char t = O ->
+  interpret_version version_pat old_version_pat (print_N b ++ "." ++ print_N c ++ t) = Some (0, b, c).
+Proof. exact interpret_version_old_lemma. Qed.
+Print Assumptions interpret_version_old_form.
+
+(* get_version: a version line gives the version it states, for all numbers (so a written file is read back
+   with the parsers of its own version) ... *)
+Theorem get_version_version_line : forall a b c,
+  0 <= a -> 0 <= b -> 0 <= c ->
+  get_version version_pat old_version_pat version_infos
+    ("info(matchFileVersion," ++ print_N a ++ "." ++ print_N b ++ "." ++ print_N c ++ ").") = (a, b, c).
+Proof. exact get_version_version_line_lemma. Qed.
+Print Assumptions get_version_version_line.
+
+Theorem get_version_old_version_line : forall b c,
+  0 <= b -> 0 <= c ->
+  get_version version_pat old_version_pat version_infos
+    ("info(matchFileVersion," ++ print_N b ++ "." ++ print_N c ++ ").") = (0, b, c).
+Proof. exact get_version_old_version_line_lemma. Qed.
+Print Assumptions get_version_old_version_line.
+
+(* ... and any other first line (no info line, or another attribute) means 0.1.0 *)
+Theorem get_version_default : forall s,
+  (re_search info_pat s = None \/
+   exists i a v rest, re_search info_pat s = Some (i, [a; v], rest) /\ a <> "matchFileVersion") ->
+  get_version version_pat old_version_pat version_infos s = (0, 1, 0).
+Proof. exact get_version_default_lemma. Qed.
+Print Assumptions get_version_default.
+
+Theorem get_version_no_info : forall s,
+  ~ occurs "info(" s -> get_version version_pat old_version_pat version_infos s = (0, 1, 0).
+Proof. exact get_version_no_info_lemma. Qed.
+Print Assumptions get_version_no_info.
+
+(* load_matchfile looks at every distinct line exactly once *)
+Theorem file_lines_once : forall l,
+  NoDup (dedup_first [] l) /\ forall x, In x (dedup_first [] l) <-> In x l.
+Proof. exact dedup_first_spec_lemma. Qed.
+Print Assumptions file_lines_once.
+
+Theorem load_file_example :
+  let '(v, res) := load_lines key_tab version_pat old_version_pat version_infos parser_table
+                     ["info(matchFileVersion,0.5.0)."; "sustain(1,2)."; ""; "sustain(1,2)."; "soft(3,4)."; "nonsense"] in
+  v = (0, 5, 0) /\ kept_names parsers_v0_5_0 res = ["MatchInfo"; "MatchSustainPedal"; "MatchSoftPedal"].
+Proof. exact load_lines_example. Qed.
+Print Assumptions load_file_example.
+
+(* the whole chain for one family of lines and ALL field values: the text the library writes for a sustain / soft
+   pedal object (format_line on the schema reflected from the pedal class of each version) ... *)
+Theorem pedal_lines_written : forall t val,
+  Forall (fun sch => format_line key_tab sch [VInt t; VInt val] = Some ("sustain(" ++ print_Z t ++ "," ++ print_Z val ++ ")."))
+         [sch_sustain_v0_1_0; sch_sustain_v0_2_0; sch_sustain_v0_3_0; sch_sustain_v0_4_0; sch_sustain_v0_5_0; sch_sustain_v1_0_0] /\
+  Forall (fun sch => format_line key_tab sch [VInt t; VInt val] = Some ("soft(" ++ print_Z t ++ "," ++ print_Z val ++ ")."))
+         [sch_soft_v0_1_0; sch_soft_v0_2_0; sch_soft_v0_3_0; sch_soft_v0_4_0; sch_soft_v0_5_0; sch_soft_v1_0_0].
+Proof. exact pedal_lines_written_lemma. Qed.
+Print Assumptions pedal_lines_written.
+
+(* ... is read by parse_matchline over the ordered parser list of every format version (regular expressions as
+   written, searched anywhere in the line; every method before the pedal method fails) as the same kind with
+   the same field values *)
+Theorem dispatch_pedal_lines : forall v ps t val,
+  In (v, ps) parser_table ->
+  disp_result ps ("sustain(" ++ print_Z t ++ "," ++ print_Z val ++ ").") = Some ("MatchSustainPedal", [VInt t; VInt val]) /\
+  disp_result ps ("soft(" ++ print_Z t ++ "," ++ print_Z val ++ ").") = Some ("MatchSoftPedal", [VInt t; VInt val]).
+Proof. exact dispatch_pedal_lines_lemma. Qed.
+Print Assumptions dispatch_pedal_lines.
+
+(* ---------------------------------------------------------------- O3 for info and meta lines (Model/C07_Up.v, Proofs/C07_up.v) *)
+
+(* the converted line is a 1.0.0 info line or score property whose attribute is the old one after renaming
+   and is an attribute of that kind of line in 1.0.0 (any attribute tables) *)
+Theorem to_v1_info_attr : forall t a v l,
+  info_to_v1 t a v = Some l ->
+  (is_info l = true /\ line_attr l = rename (ut_ieq t) a /\ mem_s (line_attr l) (ut_info1 t) = true) \/
+  (is_info l = false /\ line_attr l = rename (ut_speq t) a /\ mem_s (line_attr l) (ut_sp1 t) = true).
+Proof. exact info_to_v1_attr_lemma. Qed.
+Print Assumptions to_v1_info_attr.
+
+(* every value is carried over unchanged (all values), except the word lists of subtitle and tempoIndication *)
+Theorem to_v1_info_value_kept : forall t a v l,
+  info_to_v1 t a v = Some l ->
+  line_attr l <> "subtitle" -> line_attr l <> "tempoIndication" -> line_value l = Some v.
+Proof. exact info_to_v1_value_lemma. Qed.
+Print Assumptions to_v1_info_value_kept.
+
+Theorem to_v1_info_scalar_kept : forall t a v l,
+  info_to_v1 t a v = Some l -> (forall ws, v <> VList ws) -> line_value l = Some v.
+Proof. exact info_to_v1_scalar_lemma. Qed.
+Print Assumptions to_v1_info_scalar_kept.
+
+(* a meta line becomes the score property of the same value, measure and time *)
+Theorem to_v1_meta_content : forall t a v me ti l,
+  meta_to_v1 t a v me ti = Some l -> line_attr l <> "tempoIndication" ->
+  l = L1ScoreProp (rename (ut_speq t) a) (Some v) me 1 frac_zero ti /\ mem_s (line_attr l) (ut_sp1 t) = true.
+Proof. exact meta_to_v1_content_lemma. Qed.
+Print Assumptions to_v1_meta_content.
+
+(* on the attribute tables reflected on this run: every info attribute of 0.1.0-0.5.0 keeps its name up to the
+   two documented renamings; the only ones without a 1.0.0 form are partSequence and mergedFrom *)
+Theorem to_v1_old_info_attrs : forall ver attrs a v,
+  In (ver, attrs) old_info_attrs -> In a attrs ->
+  match info_to_v1 up_tabs a v with
+  | Some l => line_attr l = a \/ (a = "midiFilename" /\ line_attr l = "midiFileName")
+              \/ (a = "beatSubdivision" /\ line_attr l = "beatSubDivision")
+  | None => a = "partSequence" \/ a = "mergedFrom"
+  end.
+Proof. exact old_info_attrs_dest_lemma. Qed.
+Print Assumptions to_v1_old_info_attrs.
+
+Theorem to_v1_old_meta_attrs :
+  forallb (fun va : version * list string =>
+             forallb (fun a => match meta_to_v1 up_tabs a VNone 0 VNone with
+                               | Some l => String.eqb (line_attr l) a
+                               | None => false end) (snd va)) old_meta_attrs = true.
+Proof. exact old_meta_attrs_ok. Qed.
+Print Assumptions to_v1_old_meta_attrs.
+
+(* the words of a pre-1.0 tempo indication are joined by blanks *)
+Theorem to_v1_tempo_words : forall ws,
+  info_to_v1 up_tabs "tempoIndication" (VList ws) =
+  Some (L1ScoreProp "tempoIndication" (Some (VStr (join sp ws))) 1 1 frac_zero float_zero).
+Proof. exact tempo_words_lemma. Qed.
+Print Assumptions to_v1_tempo_words.
